@@ -1924,6 +1924,15 @@ class Executor(object):
         return (not t) if isinstance(t, bool) else b2v(z3.Not(t))
 
     def ex_Attribute(self, st, e):
+        gm = self.cur[0].getattr_models if self.cur is not None else None
+        if gm and isinstance(e.ctx, ast.Load):
+            src = ast.unparse(e)
+            if src in gm:
+                # a property read the contract abstracts by a library model (stated in the contract and the evidence)
+                self.lib.used.add("abstracted attribute read `%s` -> model %s" % (src, gm[src]))
+                for r in self.lib.apply_external(self, st, self.store.externals[gm[src]], [self.abstract_self(st)], {}, e):
+                    yield r
+                return
         for st1, o in self.ev(st, e.value):
             if isinstance(o, Raised):
                 yield st1, o
